@@ -21,6 +21,27 @@ CHECKS = {
         "numpy trusted; tolerances 1e-9 (cos), 1e-5 deg, 1e-9 rad plus a documented rounding model of the code's arccos-based formulas; mirror image about the (V,N) plane not distinguished.",
         "DESIGN.md §4 C02",
     ),
+    "C04": (
+        "exploration",
+        "Hypothesis property-based testing: inverse-transform residual |F(z)-u| against an independently read and blended table (h5py + own bilinear/linear interpolation), monotonicity on pairs, rejection of out-of-range energies, scripted numpy.random for the internal-generator path; batches expanded across the 8192-element iterator buffer",
+        "Generated (table version, energy, angle, u) with u constructed inside each row's CDF range and in every probability-carrying segment; the oracle never calls NssGrid/interpn/vec_1d_interp. Evidence, not proof; residuals below 1e-12 are invisible.",
+        "h5py/numpy trusted; soundness of the shipped tables is C18; which internal draw serves which event is left open.",
+        "DESIGN.md §4 C04",
+    ),
+    "C05": (
+        "exploration",
+        "Hypothesis property-based testing against an own log-space bilinear reference read with h5py; generated call histories over shared module objects of several table versions compared bit for bit with fresh objects (model-based differential)",
+        "Pointwise equality to 1e-12, bracketing by the four nodes, (0,1], clamps/floor and rejection of out-of-range energies on generated batches; history independence on generated op-lists. Evidence, not proof.",
+        "h5py/numpy trusted; the 1.19e-7 floor is compared to three digits as stated; out-of-range energy with an above-maximum angle is don't-care.",
+        "DESIGN.md §4 C05",
+    ),
+    "C07": (
+        "exploration",
+        "Hypothesis property-based testing with hand-written constants and an explicit-vector, cancellation-free altitude reference; metamorphic monotonicity on generated pairs; scripted numpy.random for the internal-generator paths",
+        "Generated batches through Taus.__call__ and EAS.altDec (all table versions, every reachable energy, u up to exactly 1 and down to denormals). Evidence, not proof.",
+        "numpy/math elementary functions trusted; speed interval read as (0,1] after rounding; exponential law via the inverse-CDF identity.",
+        "DESIGN.md §4 C07",
+    ),
     "C19": (
         "exploration",
         "Hypothesis property-based testing: round-trip + pairwise monotonicity + copy-vs-copy differential + independent scalar reference, boundary-heavy generators with exhaustive ulp sweeps of the layer boundaries",
